@@ -807,7 +807,9 @@ func (r *Run) evalCall(env *SpecEnv, x ECall) SV {
 				if f, ok := sv.fn.Object().(*types.Func); ok && sv.clo == nil {
 					return r.specNativeCallSV(env, f, svs)
 				}
-				specFail("function value %s is a closure: no pure model", id.Name)
+				// a closure passed as an argument: an (assumed pure) function of its identity and the arguments, as for
+				// an unknown function value; sound as long as what the closure reads is not modified during the call
+				r.noteAssume("a closure passed as a function-valued argument is applied in specifications as a pure function of its arguments")
 			}
 			if sig.Results().Len() != 1 {
 				specFail("function value %s: only single-result functions can be applied in specifications", id.Name)
